@@ -39,6 +39,47 @@ def field_ty(prog, adt, field):
     return None
 
 
+def array_field_len(prog, adt, field, elem=None):
+    """length N of the array field `adt.field: [elem; N]`, by value: N written as a literal, as a named constant (resolved through prog.consts
+    from the ADT's module outwards) or anything else rustc normalised in a body that builds the ADT (type of the operand stored in the field)"""
+    fty = field_ty(prog, adt, field) or ""
+    m = re.match(r"^\[(.+); ([^;\]]+)\]$", fty)
+    if not m or (elem is not None and m.group(1).strip() != elem):
+        return None
+    n = m.group(2).strip()
+    n = re.sub(r"(?:_?usize)$", "", n) if re.fullmatch(r"\d+(_?usize)?", n) else n
+    if re.fullmatch(r"\d+", n):
+        return int(n)
+    consts = prog.consts if isinstance(prog.consts, dict) else {}
+    mod = adt.split("::")[:-1]
+    cands = []
+    if "::" in n and n in consts:
+        cands.append(n)
+    name = n.split("::")[-1]
+    for k in range(len(mod), -1, -1):
+        p = "::".join(mod[:k] + [name])
+        if p in consts:
+            cands.append(p)
+            break
+    if not cands:
+        cands = [p for p in consts if p.split("::")[-1] == name]
+    vals = {consts[p].get("int") for p in cands}
+    if len(vals) == 1 and re.fullmatch(r"\d+", str(next(iter(vals)) or "")):
+        return int(next(iter(vals)))
+    # normalised type of what is stored into the field where the ADT is built
+    lens = set()
+    for b in prog.bodies:
+        for i, si, s in b.assigns():
+            rv = s["rv"]
+            if rv["k"] == "agg" and rv.get("adt") == adt and field in (rv.get("fnames") or []):
+                l = op_local(dict(zip(rv["fnames"], rv["fields"]))[field])
+                mm = re.match(r"^\[(.+); (\d+)(?:_?usize)?\]$", b.local_ty(l) or "") if l is not None else None
+                lens.add(int(mm.group(2)) if mm and (elem is None or mm.group(1).strip() == elem) else None)
+    if len(lens) == 1 and None not in lens:
+        return lens.pop()
+    return None
+
+
 def run(ctx):
     prog, src = ctx.prog, ctx.src
     ctx.explanation = (
@@ -102,10 +143,7 @@ def run(ctx):
     ctx.rule("LEMMA-UTF8-CAP", "Utf8Decoder: offset counts bytes of the current DFA path; maxlen(utf8 DFA) <= buffer capacity; reset on accept and dead transition", floor=4)
     utf8_ok = True
     cap = None
-    fty = field_ty(prog, "decoder::Utf8Decoder", "buffer")
-    m = re.match(r"^\[u8; (\d+)\]$", fty or "")
-    if m:
-        cap = int(m.group(1))
+    cap = array_field_len(prog, "decoder::Utf8Decoder", "buffer", "u8")
     g = gs.get("UTF8DFA")
     ml = g.maxlen if g is not None and g.rx is not None else None
     ctx.instance("LEMMA-UTF8-CAP", {"buffer_capacity": cap, "maxlen_utf8_dfa": ml})
@@ -425,13 +463,59 @@ def run(ctx):
     ASCII_MIN = {"is_ascii_digit": 48, "is_ascii_hexdigit": 48, "is_ascii_uppercase": 65, "is_ascii_lowercase": 97, "is_ascii_alphabetic": 65, "is_ascii_alphanumeric": 48,
                  "is_ascii_graphic": 33, "is_ascii_punctuation": 33}
     TA = Terms(prog)
+
+    def ascii_guard(b, cx, x, c, at_bb, depth=0):
+        """name of an ASCII class predicate P with min(P) >= c such that P(x) holds whenever block at_bb of b runs: a test on the dominating
+        edge in b; or b is a closure and, where it is created, it is handed to `bool::then(P(x), closure)` (it runs only when P(x) holds) or
+        its creation is guarded in the enclosing body (recursively); x is a value term, so the enclosing bodies speak about the same byte"""
+        cfg_ = b.cfg()
+
+        def holds_on(cond):
+            neg = False
+            while cond[0] == "un" and cond[1] == "Not":
+                cond, neg = cond[2], not neg
+            if cond[0] == "call" and cond[1] in ASCII_MIN and cond[2] == (x,) and c <= ASCII_MIN[cond[1]]:
+                return cond[1], ("0" if neg else "1")
+            return None
+        for sb, t in b.terms():
+            if t["k"] != "switch":
+                continue
+            h = holds_on(TA.of(b, t["d"], cx))
+            if h is None:
+                continue
+            want = h[1]
+            tgt = [tg for vv, tg in zip(t["vals"], t["targets"]) if str(vv) == want] or ([t["otherwise"]] if len(t["vals"]) == 1 and str(t["vals"][0]) != want else [])
+            if len(tgt) == 1 and cfg_.edge_dominates(sb, tgt[0], at_bb):
+                return h[0]
+        if b.kind != "Closure" or depth > 4:
+            return None
+        parent = prog.body(b.j.get("closure_parent") or "")
+        if parent is None:
+            return None
+        pcx = _closure_cx(prog, TA, parent) if parent.kind == "Closure" else None
+        made = [(i, s_) for i, si, s_ in parent.assigns() if s_["rv"]["k"] == "agg" and s_["rv"].get("ak") == "closure" and s_["rv"].get("def") == b.path]
+        if len(made) != 1 or made[0][1]["place"]["p"]:
+            return None
+        mbb, ms = made[0]
+        for ub, ut in parent.calls():
+            if call_matches(ut, r"bool>?::then$") and len(ut["args"]) == 2 and _holds_local(parent, ut["args"][1], ms["place"]["l"]):
+                h = holds_on(TA.of(parent, ut["args"][0], pcx))
+                if h is not None and h[1] == "1":
+                    return h[0]
+        return ascii_guard(parent, pcx, x, c, mbb, depth + 1)
+
+    def ascii_in_scope(b):
+        while b is not None:
+            if any(_last_seg(callee_name(t)) in ASCII_MIN for bb, t in b.calls()):
+                return True
+            b = prog.body(b.j.get("closure_parent") or "") if b.kind == "Closure" else None
+        return False
     for b in prog.bodies:
-        if not b.file.endswith("decoder.rs") or not any(_last_seg(callee_name(t)) in ASCII_MIN for bb, t in b.calls()):
+        if not b.file.endswith("decoder.rs") or not ascii_in_scope(b):
             continue
         cxa = _closure_cx(prog, TA, b) if b.kind == "Closure" else None
         obs = [o for o in obligations.collect(b, lossy=True) if not o.exp]
         keys = oblrules.site_keys(obs)
-        cfg_ = b.cfg()
         for o in obs:
             if o.kind != "OVF" or not o.sub.startswith("Sub") or not isinstance(o.term, dict):
                 continue
@@ -443,18 +527,9 @@ def run(ctx):
                 continue
             if c[0] != "c" or not re.fullmatch(r"\d+", c[1]):
                 continue
-            for sb, t in b.terms():
-                if t["k"] != "switch":
-                    continue
-                cond = TA.of(b, t["d"], cxa)
-                neg = False
-                while cond[0] == "un" and cond[1] == "Not":
-                    cond, neg = cond[2], not neg
-                if cond[0] == "call" and cond[1] in ASCII_MIN and cond[2] == (x,) and int(c[1]) <= ASCII_MIN[cond[1]]:
-                    want = "0" if neg else "1"
-                    tgt = [tg for vv, tg in zip(t["vals"], t["targets"]) if str(vv) == want] or ([t["otherwise"]] if len(t["vals"]) == 1 and str(t["vals"][0]) != want else [])
-                    if len(tgt) == 1 and cfg_.edge_dominates(sb, tgt[0], o.bb):
-                        lemmas[(b.path, keys[id(o)])] = ("ASCII-CLASS", "%s(x) holds on the dominating edge, so x >= %d >= %s" % (cond[1], ASCII_MIN[cond[1]], c[1]))
+            pred = ascii_guard(b, cxa, x, int(c[1]), o.bb)
+            if pred is not None:
+                lemmas[(b.path, keys[id(o)])] = ("ASCII-CLASS", "%s(x) holds where this runs (dominating edge / bool::then receiver), so x >= %d >= %s" % (pred, ASCII_MIN[pred], c[1]))
 
     # ---------------- (a) obligations -------------------------------------------------------------------------
     def scope(b):
@@ -481,6 +556,13 @@ def run(ctx):
         payload = TT.of(b, operand, cx)
         while payload[0] == "call" and payload[1] in STRIP and len(payload[2]) == 1:
             payload = payload[2][0]
+        return term_guarded(b, cx, payload, at_bb), payload
+
+    def term_guarded(b, cx, payload, at_bb, depth=0):
+        """the container denoted by term `payload` (in b's term context) is non-empty whenever block at_bb of b runs: (1) a test implying it
+        dominates at_bb on its non-empty edge in b; or b is a closure and, where it is created, (2) it is handed to `bool::then(cond, closure)`
+        with cond implying it (the closure runs only when cond holds), or (3) the creation itself is guarded in the enclosing body (recursively
+        through enclosing closures) - the closure owns or shares what it captured, so the bytes cannot shrink before it runs"""
         cfg = b.cfg()
         for sb, t in b.terms():
             if t["k"] != "switch":
@@ -492,8 +574,28 @@ def run(ctx):
             if not tgt and len(t["vals"]) == 1:
                 tgt = [t["otherwise"]]
             if len(tgt) == 1 and cfg.edge_dominates(sb, tgt[0], at_bb):
-                return True, payload
-        return False, payload
+                return True
+        if b.kind != "Closure" or depth > 4:
+            return False
+        parent = prog.body(b.j.get("closure_parent") or "")
+        if parent is None:
+            return False
+        pcx = _closure_cx(prog, TT, parent) if parent.kind == "Closure" else None
+        made = [(i, s_) for i, si, s_ in parent.assigns() if s_["rv"]["k"] == "agg" and s_["rv"].get("ak") == "closure" and s_["rv"].get("def") == b.path]
+        if len(made) != 1 or made[0][1]["place"]["p"]:
+            return False
+        mbb, ms = made[0]
+        # no capture by unique borrow: nothing the closure sees can be changed between the test and its run except by itself
+        for f in ms["rv"]["fields"]:
+            l = op_local(f)
+            if l is not None and (parent.local_ty(l) or "").startswith("&mut"):
+                return False
+        cl = ms["place"]["l"]
+        for ub, ut in parent.calls():
+            if call_matches(ut, r"bool>?::then$") and len(ut["args"]) == 2 and _holds_local(parent, ut["args"][1], cl):
+                if nonempty_value(TT.of(parent, ut["args"][0], pcx), payload) == "1":
+                    return True
+        return term_guarded(parent, pcx, payload, mbb, depth + 1)
 
     def some_only_nonempty(g, depth=0):
         """g returns Option<bytes>: every Some(..) it can return holds non-empty bytes (None otherwise)"""
@@ -627,6 +729,17 @@ def _closure_cx(prog, TT, cb):
         if rv["k"] == "agg" and rv.get("ak") == "closure" and rv.get("def") == cb.path:
             return {"caps": tuple(TT.of(parent, f, pcx) for f in rv["fields"]), "params": {}}
     return {"caps": (), "params": {}}
+
+
+def _holds_local(g, operand, k, depth=0):
+    """operand holds the value of local k of body g, through whole-local copies/moves"""
+    l = op_local(operand)
+    if l is None or depth > 8 or operand.get("place", {}).get("p"):
+        return False
+    if l == k:
+        return True
+    ds = g.defs_of(l)
+    return len(ds) == 1 and ds[0][1] != "term" and ds[0][2]["k"] == "use" and _holds_local(g, ds[0][2]["a"], k, depth + 1)
 
 
 def _mentions(body, l):
